@@ -1165,6 +1165,12 @@ func FromV3Parameter(ref *openapi3.ParameterRef, components *openapi3.Components
 			if v := schemaRef.Value; v != nil {
 				result.Type = v.Type
 				result.Format = v.Format
+				result.Enum = v.Enum
+				result.MinLength = v.MinLength
+				result.MaxLength = v.MaxLength
+				result.Pattern = v.Pattern
+				result.Default = v.Default
+				result.AllowEmptyValue = v.AllowEmptyValue
 			}
 			return result, nil
 		}
